@@ -962,6 +962,75 @@ fn mutself_pass(text: String, is_method: bool, cnt: &mut Counters) -> Result<Str
     Ok(apply_edits(&text, edits))
 }
 
+// ------------------------------------------------------------------------------------------
+// R13: `//@stub N <let-anchor> => <stand_in(args)>` — the initializer expression of ONE `let` statement that
+//      Verus cannot express (e.g. an iterator chain whose closure mutates a captured variable) is replaced by a
+//      call to a named external_body stand-in with an assumed contract. Only a `let` initializer can be replaced,
+//      only by `ident(ident | &ident, ..)`; the original expression text is listed in the map's `dropped` list
+//      (prefix `R13:`), so the evidence names exactly what was not verified. Runs before R4.
+// ------------------------------------------------------------------------------------------
+#[derive(Default)]
+struct LetFind {
+    stmts: Vec<(usize, usize, Option<(usize, usize)>)>,
+}
+impl<'ast> Visit<'ast> for LetFind {
+    fn visit_stmt(&mut self, s: &'ast Stmt) {
+        let r = br(s);
+        let init = match s {
+            Stmt::Local(l) => match &l.init {
+                Some(i) if i.diverge.is_none() => {
+                    let e = br(&*i.expr);
+                    Some((e.start, e.end))
+                }
+                _ => None,
+            },
+            _ => None,
+        };
+        self.stmts.push((r.start, r.end, init));
+        visit::visit_stmt(self, s);
+    }
+}
+
+fn is_stub_call(call: &str) -> bool {
+    let Ok(Expr::Call(c)) = syn::parse_str::<Expr>(call) else { return false };
+    let simple = |e: &Expr| matches!(e, Expr::Path(p) if p.path.get_ident().is_some());
+    simple(&c.func)
+        && c.args.iter().all(|a| match a {
+            Expr::Reference(r) => r.mutability.is_none() && simple(&r.expr),
+            e => simple(e),
+        })
+}
+
+fn stub_pass(mut text: String, is_method: bool, path: &str, stubs: &[(usize, String, String)], cnt: &mut Counters, dropped: &mut Vec<String>) -> Result<String, String> {
+    for (k, anchor, call) in stubs {
+        if !is_stub_call(call) {
+            return Err(format!("{path}: //@stub replacement must be `stand_in(ident | &ident, ..)`, got `{call}`"));
+        }
+        let mut f = LetFind::default();
+        if is_method {
+            let ast: syn::ImplItemFn = syn::parse_str(&text).map_err(|e| format!("reparse (R13): {e}"))?;
+            f.visit_block(&ast.block);
+        } else {
+            let ast: syn::ItemFn = syn::parse_str(&text).map_err(|e| format!("reparse (R13): {e}"))?;
+            f.visit_block(&ast.block);
+        }
+        let want = norm(anchor);
+        let mut hits = f.stmts.iter().filter(|(a, b, _)| norm(&text[*a..*b]).starts_with(&want));
+        let Some((_, _, init)) = hits.nth(*k) else {
+            return Err(format!("lost anchor: {path}: statement #{k} starting with `{anchor}` not found (stub)"));
+        };
+        let Some((a, b)) = init else {
+            return Err(format!("{path}: //@stub only applies to the initializer of a plain `let` statement (`{anchor}`)"));
+        };
+        let orig = norm(&text[*a..*b]);
+        let cut = orig.char_indices().nth(300).map_or(orig.len(), |(i, _)| i);
+        cnt.bump("R13_stub_expr");
+        dropped.push(format!("R13: {path}: `{}` replaced by assumed stand-in `{call}`", &orig[..cut]));
+        text = apply_edits(&text, vec![Edit { start: *a, end: *b, rep: format!("/* R13: expression replaced by an assumed stand-in */ {call}") }]);
+    }
+    Ok(text)
+}
+
 fn eat_ws(text: &str, mut i: usize) -> usize {
     let b = text.as_bytes();
     while i < b.len() && (b[i] as char).is_whitespace() {
@@ -1027,6 +1096,7 @@ pub struct FnSpec {
     pub open: Vec<String>,
     pub guards: bool,
     pub refpats: bool,
+    pub stubs: Vec<(usize, String, String)>, // R13: (n, let-anchor, stand-in call)
 }
 
 fn check_ghost_only(what: &str, s: &str) -> Result<(), String> {
@@ -1280,6 +1350,8 @@ impl<'a> Ctx<'a> {
         let text1 = self.clean(&text0, kind, None, !in_trait_impl && !fs.nopub)?;
         // (an external_body stub keeps only its signature: the body rewrites are skipped)
         let text1 = mutself_pass(text1, is_method, &mut self.cnt)?;
+        // pass 1b (R13): stand-ins for `let` initializers outside Verus' reach
+        let text1 = if fs.external || fs.stubs.is_empty() { text1 } else { stub_pass(text1, is_method, &fs.path, &fs.stubs, &mut self.cnt, &mut self.dropped)? };
         // pass 2 (R4)
         let text2 = if fs.external { text1 } else { r4_pass(text1, is_method, &fs.r4result, &mut self.cnt)? };
         let text2 = if fs.guards && !fs.external { r12_pass(text2, is_method, &mut self.cnt)? } else { text2 };
@@ -1675,6 +1747,15 @@ impl<'a> Gen<'a> {
                                         let rest = rest["drop".len()..].trim_start();
                                         let rest = rest[ps[1].len()..].trim();
                                         fs.drops.push((n, rest.to_string()));
+                                    }
+                                    "stub" => {
+                                        // //@stub N <let-anchor> => <stand_in(args)>
+                                        let n: usize = ps.get(1).and_then(|x| x.parse().ok()).ok_or("//@stub N <let-anchor> => <call>")?;
+                                        let rest = d.trim_start();
+                                        let rest = rest["stub".len()..].trim_start();
+                                        let rest = rest[ps[1].len()..].trim();
+                                        let (anchor, call) = rest.split_once("=>").ok_or("//@stub N <let-anchor> => <call>")?;
+                                        fs.stubs.push((n, anchor.trim().to_string(), call.trim().to_string()));
                                     }
                                     "forghost" => {
                                         let n: usize = ps.get(1).and_then(|x| x.parse().ok()).ok_or("//@forghost N id")?;
